@@ -48,6 +48,7 @@ pub const O_CANCEL: u8 = 4; // cancel_tx of the state's pending entry
 pub const O_REFRESH: u8 = 5; // retrieve_summary_info(refresh)
 pub const O_MINE: u8 = 6; // node event: the prepared block is accepted by the node (no wallet call)
 pub const O_CANCEL2: u8 = 7; // cancel_tx of a second, unrelated pending entry X (state past-ttl only)
+pub const O_DOWN: u8 = 8; // node event: the node becomes unreachable (every node call fails from here on; no wallet call)
 
 fn op_name(k: u8) -> &'static str {
 	match k {
@@ -59,6 +60,7 @@ fn op_name(k: u8) -> &'static str {
 		O_REFRESH => "refresh",
 		O_MINE => "block-mined",
 		O_CANCEL2 => "cancel-other",
+		O_DOWN => "node-unreachable",
 		_ => "?",
 	}
 }
@@ -71,7 +73,7 @@ fn r_name(k: u8) -> &'static str {
 }
 /// operations that hold the wallet lock for their whole duration (no hook inside): one segment
 fn is_atomic(k: u8) -> bool {
-	matches!(k, O_INIT | O_LOCK | O_RECV | O_FIN | O_MINE)
+	matches!(k, O_INIT | O_LOCK | O_RECV | O_FIN | O_MINE | O_DOWN)
 }
 
 /// Start states.
@@ -434,6 +436,7 @@ fn available_ops(kind: u8, prep: &Prepared) -> Vec<u8> {
 	if prep.cancel2.is_some() {
 		v.push(O_CANCEL2);
 	}
+	v.push(O_DOWN);
 	let _ = kind;
 	v
 }
@@ -451,6 +454,7 @@ enum OpInst {
 	Fin(Slate),
 	Cancel(Option<u32>, Option<Uuid>),
 	Mine(Block),
+	Down,
 }
 
 fn err_class(e: &WErr) -> String {
@@ -460,7 +464,7 @@ fn err_class(e: &WErr) -> String {
 }
 
 /// Runs one operation against the shared wallet instance; returns (result class, slate id created).
-fn run_op(op: &OpInst, inst: &world::WInst, mask: &Option<SecretKey>, chain: &Arc<grin_chain::Chain>) -> (String, Option<Uuid>) {
+fn run_op(op: &OpInst, inst: &world::WInst, mask: &Option<SecretKey>, chain: &Arc<grin_chain::Chain>, node: &crate::node::DirectNode) -> (String, Option<Uuid>) {
 	let (tx, _rx) = channel();
 	let m = mask.as_ref();
 	match op {
@@ -517,6 +521,10 @@ fn run_op(op: &OpInst, inst: &world::WInst, mask: &Option<SecretKey>, chain: &Ar
 			Ok(_) => ("ok".into(), None),
 			Err(e) => (format!("err:chain:{:?}", e).chars().take(60).collect(), None),
 		},
+		OpInst::Down => {
+			node.set_down(true);
+			("ok".into(), None)
+		}
 	}
 }
 
@@ -544,6 +552,7 @@ fn instantiate(prep: &Prepared, r: u8, ops: &[u8]) -> Result<Vec<OpInst>, String
 			O_REFRESH => OpInst::Refresh,
 			O_CANCEL2 => OpInst::Cancel(None, Some(prep.cancel2.clone().ok_or("no operand: cancel-other")?)),
 			O_MINE => OpInst::Mine(prep.block.clone().ok_or("no operand: block")?),
+			O_DOWN => OpInst::Down,
 			k => return Err(format!("bad op kind {}", k)),
 		});
 	}
@@ -840,8 +849,9 @@ fn exec(scratch: &Path, st: &StartState, insts: &[OpInst], final_refresh: bool, 
 		let mask = wal.mask.clone();
 		let chain = w.chain.clone();
 		let res = results.clone();
+		let node = w.node.clone();
 		jobs.push(Box::new(move || {
-			let r = run_op(&op, &inst, &mask, &chain);
+			let r = run_op(&op, &inst, &mask, &chain, &node);
 			res.lock().unwrap()[i] = Some(r);
 		}));
 	}
@@ -884,13 +894,26 @@ fn exec(scratch: &Path, st: &StartState, insts: &[OpInst], final_refresh: bool, 
 			}
 		}
 	}
+	// with a node that fails part-way, what a refresh / scan RETURNS depends on which of its node calls fails first
+	// (a refresh swallows a failure of its first call, reports later ones; a scan reports any): that is a property of
+	// the result, not of the wallet state the statement is about. The results of refresh / scan threads are therefore
+	// not compared in configurations with the node-unreachable event; every other result and the whole state are.
+	if insts.iter().any(|o| matches!(o, OpInst::Down)) {
+		for (i, o) in insts.iter().enumerate() {
+			if matches!(o, OpInst::Refresh | OpInst::Scan(_)) && !res_out[i].starts_with("panic:") && res_out[i] != "not-run" {
+				res_out[i] = "returned(result not compared: node fails during the phase)".to_string();
+			}
+		}
+	}
 	if final_refresh {
 		if std::env::var("GWV_C20_DUMP").is_ok() {
 			if let Ok(p) = project(wal, &w.chain, scratch, &labels, &st.prep.known_excess) {
 				eprintln!("[c20 dump] before final refresh ({:?}): entries {} outputs {}", res_out, p["entries"], p["outputs"]);
 			}
 		}
-		let (r, _) = run_op(&OpInst::Refresh, &wal.inst, &wal.mask, &w.chain);
+		// the quiescent refresh talks to a reachable node again
+		w.node.set_down(false);
+		let (r, _) = run_op(&OpInst::Refresh, &wal.inst, &wal.mask, &w.chain, &w.node);
 		res_out.push(format!("final-refresh:{}", r));
 	}
 	let proj = project(wal, &w.chain, scratch, &labels, &st.prep.known_excess)?;
@@ -925,7 +948,7 @@ fn learn_excesses(scratch: &Path, st: &mut StartState) -> Result<(), String> {
 		world::copy_tree(&st.dir, &dir).map_err(|e| format!("copy state: {}", e))?;
 		{
 			let w = open_min(&dir)?;
-			let _ = run_op(&op, &w.wal.inst, &w.wal.mask, &w.chain);
+			let _ = run_op(&op, &w.wal.inst, &w.wal.mask, &w.chain, &w.node);
 			for t in snap::view(&w.wal).txs.iter() {
 				if let Some(e) = &t.kernel_excess {
 					let h = hex(&e.0);
@@ -944,6 +967,7 @@ fn learn_excesses(scratch: &Path, st: &mut StartState) -> Result<(), String> {
 struct MinWorld {
 	wal: Wal,
 	chain: Arc<grin_chain::Chain>,
+	node: crate::node::DirectNode,
 }
 
 fn open_min(dir: &Path) -> Result<MinWorld, String> {
@@ -952,8 +976,8 @@ fn open_min(dir: &Path) -> Result<MinWorld, String> {
 	let genesis: Block = grin_core::ser::deserialize(&mut &gbytes[..], grin_core::ser::ProtocolVersion(1), grin_core::ser::DeserializationMode::default()).map_err(|e| format!("{:?}", e))?;
 	let chain = world::open_chain(dir, &genesis)?;
 	let node = crate::node::DirectNode::new(Some(chain.clone()));
-	let wal = world::open_wallet(dir, "w0", node, "", false)?;
-	Ok(MinWorld { wal, chain })
+	let wal = world::open_wallet(dir, "w0", node.clone(), "", false)?;
+	Ok(MinWorld { wal, chain, node })
 }
 
 /// Outcome with thread i renamed to thread perm[i] (results moved, "new#i" labels renamed, record lists re-sorted).
@@ -1157,6 +1181,62 @@ fn evt_cells(tier: Tier) -> Vec<Cell> {
 	v
 }
 
+/// part dwn: the node event 'node unreachable' (every node call fails from that point on), alone and together with
+/// the block event and a second refresh
+fn dwn_cells(tier: Tier) -> Vec<Cell> {
+	let mut v = vec![];
+	let lim = env_u64("GWV_C20_DWN_LIMIT").unwrap_or(tier.pick(220, 6000));
+	let bound = Some(env_u64("GWV_C20_DWN_BOUND").map(|b| b as u32).unwrap_or(1));
+	// a posted transaction whose block arrives while R runs, a second refresh that sees the block, and the node
+	// going away: R works on a chain view older than the wallet records when its node calls start to fail
+	for s in [S_CHANGE_POSTED, S_NOCHANGE_POSTED, S_RECV_POSTED].iter() {
+		let rs: Vec<u8> = if tier == Tier::Thorough { vec![R_SCAN, R_REFRESH, R_SCAN_DELETE] } else { vec![R_SCAN, R_REFRESH] };
+		for r in rs {
+			v.push(Cell {
+				state: *s,
+				r,
+				ops: vec![O_REFRESH, O_MINE, O_DOWN],
+				bound,
+				limit: lim,
+			});
+			if tier == Tier::Thorough {
+				v.push(Cell {
+					state: *s,
+					r,
+					ops: vec![O_MINE, O_DOWN],
+					bound: None,
+					limit: lim,
+				});
+			}
+		}
+	}
+	// frozen chain: the node goes away at every point of R (all schedules), and next to a cancel / a receive
+	let frozen: Vec<u8> = if tier == Tier::Thorough { (0..N_FROZEN_STATES).collect() } else { vec![S_LOCKED, S_MINED_UNREFRESHED, S_PAST_TTL, S_NOCHANGE_MINED] };
+	for s in frozen {
+		for r in [R_REFRESH, R_SCAN].iter() {
+			v.push(Cell {
+				state: s,
+				r: *r,
+				ops: vec![O_DOWN],
+				bound: None,
+				limit: 6000,
+			});
+			if tier == Tier::Thorough {
+				for o in [O_CANCEL, O_RECV, O_REFRESH].iter() {
+					v.push(Cell {
+						state: s,
+						r: *r,
+						ops: vec![*o, O_DOWN],
+						bound: if is_atomic(*o) { None } else { bound },
+						limit: lim,
+					});
+				}
+			}
+		}
+	}
+	v
+}
+
 /// exploration aid (not used by the registered commands): deeper preemption bound / execution limit for the evt cells
 fn env_u64(k: &str) -> Option<u64> {
 	std::env::var(k).ok().and_then(|v| v.parse().ok())
@@ -1190,6 +1270,7 @@ impl C20 {
 			"ex1" => layout(ex1_cells(args.tier)),
 			"ex2" => layout(ex2_cells(args.tier)),
 			"evt" => layout(evt_cells(args.tier)),
+			"dwn" => layout(dwn_cells(args.tier)),
 			_ => vec![],
 		};
 		C20 {
@@ -1282,7 +1363,7 @@ impl C20 {
 			}
 		}
 		let insts = instantiate(&st.prep, c.r, &c.ops)?;
-		let has_event = c.ops.contains(&O_MINE);
+		let has_event = c.ops.contains(&O_MINE) || c.ops.contains(&O_DOWN);
 		let mut names: Vec<String> = vec!["R".to_string()];
 		for (i, o) in c.ops.iter().enumerate() {
 			names.push(format!("O{}:{}", i + 1, op_name(*o)));
@@ -1615,6 +1696,7 @@ impl Prop for C20 {
 			"ex1" => self.grid.len() as u64 * tier.pick(1, 6),
 			"ex2" => tier.pick(0, self.grid.len() as u64),
 			"evt" => self.grid.len() as u64 * tier.pick(1, 3),
+			"dwn" => self.grid.len() as u64 * tier.pick(1, 2),
 			"pat" => tier.pick(32, 1200),
 			_ => tier.pick(48, 2000),
 		}
@@ -1728,6 +1810,7 @@ impl Prop for C20 {
 			"ex1" => "every (start state x R kind x one O operation) cell: all schedules enumerated when O holds the wallet lock for its whole duration (init_send, lock, receive, finalize: R's lock sections + 1 positions); O = cancel / refresh (themselves sequences of lock sections) enumerated up to a preemption bound (1 quick; 2 in the first thorough round, 1 in the later rounds that draw state variations). evaluations = schedules executed; non-trivial = schedule in which an O thread runs strictly between two lock sections of R (counted per schedule in extra.nontrivial_schedules; a case is non-trivial if it contains one)".into(),
 			"ex2" => "thorough only: every (start state x R kind x two lock-holding O operations) cell, all schedules".into(),
 			"evt" => "start states with a posted transaction whose block is built but not yet accepted; one thread is the node event 'block accepted'; R + event: all schedules; R + cancel/refresh + event: preemption bound 1 (quick, at most 160 executions) / 2 (thorough, first round; later rounds with drawn state variations use bound 1); state compared after one additional quiescent refresh in both the interleaved and the serial runs".into(),
+			"dwn" => "node event 'node unreachable' (every node call fails from that point on; a thread of its own, one atomic step). Event start states x R in {scan, refresh (thorough: + scan-delete)} x {second refresh, block accepted, node unreachable}: preemption bound 1 with free choice whenever a thread ends (R is interrupted once; block, refresh and node failure land there in every order), cut at 220 executions (quick) / 6000 (thorough); thorough also R + block + node unreachable with all schedules. Frozen start states x R in {refresh, scan} x node unreachable: all schedules (the node fails before every lock section of R); thorough adds cancel / receive / refresh next to it. Compared after one quiescent refresh against a reachable node, in both the interleaved and the serial runs; the return values of refresh / scan threads are not compared in this part (they depend on which node call fails first), the wallet state and all other results are".into(),
 			"pat" => "event start states (posted transaction, block built but not accepted), R in {refresh, scan}, O in {cancel, refresh}, node event 'block accepted'; 8 constructed schedules per case of the shape R x a, O x b, block, R x j, O to its end, R to its end with drawn (a, b, j): up to 3 preemptions, i.e. deeper than the enumerated bounds of evt; judged like evt (one quiescent refresh after both the interleaved and the serial runs)".into(),
 			_ => "R + 2..3 operations drawn from {init_send, lock, receive, finalize, cancel x2, refresh, cancel-other}, 6 random schedules (choice bytes) per case, R in {refresh, scan, scan(delete_unconfirmed)}; non-trivial as in ex1".into(),
 		}
@@ -1735,7 +1818,7 @@ impl Prop for C20 {
 	fn assumptions(&self) -> Vec<String> {
 		vec![
 			"interleavings are produced at wallet-lock acquisitions (wallet_lock! hook); API methods that lock the wallet directly (init_send_tx, tx_lock_outputs, finalize_tx, receive_tx) are atomic units".into(),
-			"parts ex1/ex2/smp: the chain is frozen during the concurrent phase (no node events); part evt adds the single node event 'prepared block accepted'; node-unreachable events are not generated".into(),
+			"parts ex1/ex2/smp: the chain is frozen during the concurrent phase (no node events); part evt adds the single node event 'prepared block accepted'; part dwn adds the node event 'node unreachable' (all node calls fail from one point on; the node does not come back before the phase ends, it is reachable again for the quiescent refresh)".into(),
 			"part evt compares after one more quiescent refresh (a refresh that straddles a new block legitimately mixes two chain heights; the statement is read as: the mixture must be healed by the next refresh and must not lose an operation's recorded effect)".into(),
 			"projection: per output key id, commitment, account, status, value, coinbase flag and the (slate, type, confirmed) of its log entry; per log entry account, slate, type, confirmed, amounts, fee, ttl, kernel excess, payment-proof fields present, num inputs/outputs, stored-tx reference; key index and last confirmed height per account; private contexts (slate, input ids, output ids, amount, fee); account paths; stored tx files. Not projected: log ids, timestamps, output heights, last scanned block, kernel_lookup_min_height".into(),
 			"slate ids created inside the phase are compared as 'new#<thread>'; kernel excesses that depend on wallet randomness drawn inside the phase are compared as present/absent".into(),
@@ -1763,7 +1846,7 @@ impl Prop for C20 {
 	}
 }
 
-const PARTS: [&str; 5] = ["ex1", "ex2", "evt", "pat", "smp"];
+const PARTS: [&str; 6] = ["ex1", "ex2", "evt", "dwn", "pat", "smp"];
 
 pub fn run(args: &Args, rep: &mut Report) {
 	let mut all_ex = true;
